@@ -58,39 +58,40 @@ structure SpinNodes where
   aAnnAAnnR : Fam
   aDagAAnnR : Fam
 
+/-- the ten node families of `SpinMolecularOpGraphNodes.__init__` in creation order: (outer key, inner keys, charge) -/
+def spinSpecs (L : Int) : List (List (List Int × List Int × Int)) :=
+  let h := L / 2
+  [ (prodRS 0 (L - 1)).map fun (i, s) => ([i, s], pyRange (i + 1) L, encPair 1 (sgn s)),
+    (prodRS 0 (L - 1)).map fun (i, s) => ([i, s], pyRange (i + 1) L, encPair (-1) (-sgn s)),
+    (prodRS 0 h).flatMap fun (i, s) =>
+      ((prodRS i h).filter fun jt => pLt (i, s) jt).map fun (j, t) =>
+        ([i, s, j, t], pyRange (j + 1) (h + 1), encPair 2 (sgn s + sgn t)),
+    (prodRS 0 h).flatMap fun (i, s) =>
+      ((prodRS 0 (i + 1)).filter fun jt => pLt jt (i, s)).map fun (j, t) =>
+        ([i, s, j, t], pyRange (i + 1) (h + 1), encPair (-2) (-sgn s + -sgn t)),
+    (prodRS 0 h).flatMap fun (i, s) =>
+      (prodRS 0 h).map fun (j, t) =>
+        ([i, s, j, t], pyRange (max i j + 1) (h + 1), encPair 0 (sgn s + -sgn t)),
+    (prodRS 1 L).map fun (i, s) => ([i, s], pyRange 1 (i + 1), encPair (-1) (-sgn s)),
+    (prodRS 1 L).map fun (i, s) => ([i, s], pyRange 1 (i + 1), encPair 1 (sgn s)),
+    (prodRS (h + 1) L).flatMap fun (i, s) =>
+      ((prodRS i L).filter fun jt => pLt (i, s) jt).map fun (j, t) =>
+        ([i, s, j, t], pyRange (h + 1) (i + 1), encPair (-2) (-sgn s + -sgn t)),
+    (prodRS (h + 1) L).flatMap fun (i, s) =>
+      ((prodRS (h + 1) (i + 1)).filter fun jt => pLt jt (i, s)).map fun (j, t) =>
+        ([i, s, j, t], pyRange (h + 1) (j + 1), encPair 2 (sgn s + sgn t)),
+    (prodRS (h + 1) L).flatMap fun (i, s) =>
+      (prodRS (h + 1) L).map fun (j, t) =>
+        ([i, s, j, t], pyRange (h + 1) (min i j + 1), encPair 0 (-sgn s + sgn t)) ]
+
 /-- `SpinMolecularOpGraphNodes.__init__` -/
 def SpinNodes.init (L : Int) : SpinNodes :=
-  let h := L / 2
   let identityL : List (Int × Node) := (pyRange 0 L).map fun i => (i, ⟨i, [], [], 0⟩)
   let identityR : List (Int × Node) := (pyRange 1 (L + 1)).map fun i => (i, ⟨L + i - 1, [], [], 0⟩)
   let nid : Int := ((identityL.length + identityR.length : Nat) : Int)
-  let (aDagL, nid) := mkFam ((prodRS 0 (L - 1)).map fun (i, s) =>
-    ([i, s], pyRange (i + 1) L, encPair 1 (sgn s))) nid
-  let (aAnnL, nid) := mkFam ((prodRS 0 (L - 1)).map fun (i, s) =>
-    ([i, s], pyRange (i + 1) L, encPair (-1) (-sgn s))) nid
-  let (aDagADagL, nid) := mkFam ((prodRS 0 h).flatMap fun (i, s) =>
-    ((prodRS i h).filter fun jt => pLt (i, s) jt).map fun (j, t) =>
-      ([i, s, j, t], pyRange (j + 1) (h + 1), encPair 2 (sgn s + sgn t))) nid
-  let (aAnnAAnnL, nid) := mkFam ((prodRS 0 h).flatMap fun (i, s) =>
-    ((prodRS 0 (i + 1)).filter fun jt => pLt jt (i, s)).map fun (j, t) =>
-      ([i, s, j, t], pyRange (i + 1) (h + 1), encPair (-2) (-sgn s + -sgn t))) nid
-  let (aDagAAnnL, nid) := mkFam ((prodRS 0 h).flatMap fun (i, s) =>
-    (prodRS 0 h).map fun (j, t) =>
-      ([i, s, j, t], pyRange (max i j + 1) (h + 1), encPair 0 (sgn s + -sgn t))) nid
-  let (aDagR, nid) := mkFam ((prodRS 1 L).map fun (i, s) =>
-    ([i, s], pyRange 1 (i + 1), encPair (-1) (-sgn s))) nid
-  let (aAnnR, nid) := mkFam ((prodRS 1 L).map fun (i, s) =>
-    ([i, s], pyRange 1 (i + 1), encPair 1 (sgn s))) nid
-  let (aDagADagR, nid) := mkFam ((prodRS (h + 1) L).flatMap fun (i, s) =>
-    ((prodRS i L).filter fun jt => pLt (i, s) jt).map fun (j, t) =>
-      ([i, s, j, t], pyRange (h + 1) (i + 1), encPair (-2) (-sgn s + -sgn t))) nid
-  let (aAnnAAnnR, nid) := mkFam ((prodRS (h + 1) L).flatMap fun (i, s) =>
-    ((prodRS (h + 1) (i + 1)).filter fun jt => pLt jt (i, s)).map fun (j, t) =>
-      ([i, s, j, t], pyRange (h + 1) (j + 1), encPair 2 (sgn s + sgn t))) nid
-  let (aDagAAnnR, _) := mkFam ((prodRS (h + 1) L).flatMap fun (i, s) =>
-    (prodRS (h + 1) L).map fun (j, t) =>
-      ([i, s, j, t], pyRange (h + 1) (min i j + 1), encPair 0 (-sgn s + sgn t))) nid
-  ⟨L, identityL, identityR, aDagL, aAnnL, aDagADagL, aAnnAAnnL, aDagAAnnL, aDagR, aAnnR, aDagADagR, aAnnAAnnR, aDagAAnnR⟩
+  let fams := (mkFams (spinSpecs L) nid).1
+  ⟨L, identityL, identityR, fams.getD 0 [], fams.getD 1 [], fams.getD 2 [], fams.getD 3 [], fams.getD 4 [],
+   fams.getD 5 [], fams.getD 6 [], fams.getD 7 [], fams.getD 8 [], fams.getD 9 []⟩
 
 /-- `SpinMolecularOpGraphNodes.get(oplist, connection)`; `oplist` entries are `(site, spin, OID)` -/
 def SpinNodes.get (n : SpinNodes) (oplist : List (Int × Int × Int)) (left : Bool) : Except Err (List (Int × Node)) :=
